@@ -1,4 +1,4 @@
 SPECIFICATION TraceSpec
-INVARIANTS NotAccepted ReplayOK OpsFit ServerIndexOK
+INVARIANTS ReplayOK OpsFit ServerIndexOK
 CONSTRAINT Track
 POSTCONDITION Report
